@@ -27,6 +27,7 @@ type WorkerCfg struct {
 	Progress   string   `json:"progress"`   // file where the worker announces the run it is executing
 	StartIter  int      `json:"start_iter"` // first iteration of this worker's stride to execute (after a node crash the slot resumes behind it)
 	GenPlan    bool     `json:"gen_plan"`   // only generate the plan of iteration StartIter and write it to Out (no execution)
+	EndIter    int      `json:"end_iter"`   // >0: stop before this iteration (a slot is served by several short-lived processes)
 }
 
 type FoundViolation struct {
@@ -135,7 +136,7 @@ func RunWorker(e Engine, cfg *WorkerCfg) error {
 	shapes := map[string]struct{}{}
 	statesRef, shapesRef = &states, &shapes
 	label := e.Name() + "/" + cfg.Prop
-	for i := cfg.StartIter; i < cfg.MaxRuns; i++ {
+	for i := cfg.StartIter; i < cfg.MaxRuns && (cfg.EndIter <= 0 || i < cfg.EndIter); i++ {
 		if cfg.BudgetS > 0 && time.Since(start).Seconds() > cfg.BudgetS {
 			break
 		}
